@@ -41,6 +41,7 @@ func runC17(c *Ctx) {
 	c.Rule("INDEXED-RESULTS", "plugin responses are stored at the plugin's configuration index", 1)
 	c15StagedUntilFlush(c)
 	c11ClosureAlwaysWalked(c)
+	c17ByDirByFiles(c)
 	pk := p.Pkg("private/bufpkg/bufimage")
 	if pk == nil {
 		c.Fail("GENERATE-ONCE", "anchor", token.NoPos, "bufimage not found")
